@@ -277,3 +277,17 @@ def llvm_dies(path):
     return ["[%d,%d,%s,%s,[%s],[%s]]" % (d["offset"], d["tag"], "[%d]" % d["parent"] if d["parent"] is not None else "[]",
                                        "[1]" if d["has_children"] else "[]", ",".join(str(c) for c in d["children"]),
                                        ",".join("[%d,%d]" % a for a in d["attrs"])) for d in dies]
+
+
+def copy_laws(what, producer, obs):
+    """law queries saying that a copy of a value (read through a binding, made by `dup`, taken into a branch or a
+    sub-expression) shows the same thing as the value itself; each query yields a result where the law FAILS"""
+    o = "[" + ", ".join(obs) + "]"
+    P = producer
+    return [
+        ("a %s read from a binding = the %s itself" % (what, what), "?([%s %s] != [%s (|V| V %s)])" % (P, o, P, o)),
+        ("a copy of a copy of a %s = the copy" % what, "?([%s (|V| V %s)] != [%s (|V| V (|W| W W drop %s))])" % (P, o, P, o)),
+        ("`dup` of a %s = the %s itself" % (what, what), "?([%s %s] != [%s dup swap drop %s])" % (P, o, P, o)),
+        ("a %s seen from a branch and a sub-expression = the %s itself" % (what, what),
+         "?([%s %s] != [%s (drop 0 ?(1 == 2), ?(%s) %s)])" % (P, o, P, " ".join("?(%s)" % x for x in obs[:1]), o)),
+    ]
